@@ -204,11 +204,18 @@ def relabel_job(spec, size):
     return Job('C08', 'relabel:%s' % spec.name, build, body, funcs=spec.funcs, bounds=dict(size=size), exact_floats=False, timeout_s=1500)
 
 
-def relabel_hier_job(size):
+def relabel_hier_job(size, rpat, epat):
+    """rpat / epat: label pattern of the finest level (case variants of one name included: mir_eval identifies labels
+    case-insensitively, so 'a' and 'A' are one name and the bijection acts on the case-folded names)"""
     spec = T.by_name('hierarchy.lmeasure')
 
     def build(ctx):
-        return T.b_hier(2, 0.5, 2.0, labels='repeat')(ctx, size)
+        inp = T.b_hier(2, 0.5, 2.0, labels='repeat')(ctx, size)
+        (rh, rl), (eh, el) = inp['ref'], inp['est']
+        rl = rl[:-1] + [list(rpat)]
+        el = el[:-1] + [list(epat)]
+        inp['ref'], inp['est'] = (rh, rl), (eh, el)
+        return inp
 
     def body(A, inp):
         r1 = spec.call(inp)
@@ -216,12 +223,13 @@ def relabel_hier_job(size):
         eh, el = inp['est']
 
         def ren(ls, tag):
-            return [['%s_%s' % (tag, x[::-1]) for x in level] for level in ls]
+            return [['%s_%s' % (tag, x.lower()[::-1]) for x in level] for level in ls]
         r2 = spec.call(dict(ref=(rh, ren(rl, 'p')), est=(eh, ren(el, 'q')), kw=inp['kw']))
         for i, (nm, kind) in enumerate(spec.outs):
             A.observe(nm, r1[i])
             A.require(A.eq(r1[i], r2[i]), 'hierarchy.lmeasure.%s:unchanged-by-label-bijection' % nm)
-    return Job('C08', 'relabel:hierarchy.lmeasure[%dx%d]' % size, build, body, funcs=spec.funcs, exact_floats=False, timeout_s=1500)
+    return Job('C08', 'relabel:hierarchy.lmeasure[%dx%d|%s|%s]' % (size + (''.join(rpat), ''.join(epat))), build, body, funcs=spec.funcs,
+               exact_floats=False, timeout_s=1500)
 
 
 def jobs(tier):
@@ -253,5 +261,9 @@ def jobs(tier):
     for spec in T.structure_specs(tier):
         for size in spec.sizes[tier]:
             js.append(relabel_job(spec, size))
-    js.append(relabel_hier_job((2, 2)))
+    js.append(relabel_hier_job((2, 2), 'ab', 'uv'))
+    js.append(relabel_hier_job((3, 2), 'abA', 'uU'))
+    if not q:
+        js.append(relabel_hier_job((3, 2), 'aAb', 'uv'))
+        js.append(relabel_hier_job((3, 3), 'aba', 'uvU'))
     return js
